@@ -210,12 +210,14 @@ theorem notify_records_all (s : St) (l : Loc) (h : Inv s.client) (t : TowerId) (
     split
     · rename_i s2 heq
       rw [heq] at hh kh
-      have kr := keeps_retry s2 t (s2.pendingOf t)
+      have kr := keeps_retry (s2.consumeIf (asked s1 t l) t) t (s2.pendingOf t)
+      rw [consumeIf_client] at kr
       rcases hh with hh | hh
       · exact Or.inl (kr.recd (kh.inv h1) t l hh)
       · exact Or.inr (kr.flagd (kh.inv h1) t hh)
     · rename_i s2 heq
       rw [heq] at hh
+      rw [consumeIf_client]
       exact hh
   -- the remaining towers
   have k2 : Keeps s1.client (notifyTower s1 t l).client := keeps_notifyTower s1 t l
